@@ -1,5 +1,5 @@
 // pigeonhole: a sequence of distinct numbers below m has at most m entries
-pub proof fn lemma_pigeon(s: Seq<int>, m: int)
+pub proof fn lemma_pigeonhole(s: Seq<int>, m: int)
     requires m >= 0,
         forall|k: int| 0 <= k < s.len() ==> 0 <= #[trigger] s[k] < m,
         forall|k1: int, k2: int| 0 <= k1 < s.len() && 0 <= k2 < s.len() && k1 != k2 ==> s[k1] != s[k2],
@@ -20,10 +20,10 @@ pub proof fn lemma_pigeon(s: Seq<int>, m: int)
                 let i2 = if j2 < k { j2 } else { j2 + 1 };
                 assert(t[j1] == s[i1] && t[j2] == s[i2]);
             }
-            lemma_pigeon(t, m - 1);
+            lemma_pigeonhole(t, m - 1);
         } else {
             assert forall|j: int| 0 <= j < s.len() implies 0 <= #[trigger] s[j] < m - 1 by {}
-            lemma_pigeon(s, m - 1);
+            lemma_pigeonhole(s, m - 1);
         }
     }
 }
